@@ -85,6 +85,20 @@ func (a *API) SearchPromises(id string, state string, tags map[string]string, li
 			return nil, RequestValidationError(errors.New("The field cursor is invalid."))
 		}
 
+		// the cursor carries the whole next request, it must satisfy what is
+		// required from a first request
+		if cursor.Next.Id == "" || len(cursor.Next.States) == 0 || cursor.Next.Limit < 1 || cursor.Next.Limit > 100 {
+			return nil, RequestValidationError(errors.New("The field cursor is invalid."))
+		}
+		for _, state := range cursor.Next.States {
+			if !state.In(promise.Pending | promise.Resolved | promise.Rejected | promise.Timedout | promise.Canceled) {
+				return nil, RequestValidationError(errors.New("The field cursor is invalid."))
+			}
+		}
+		if cursor.Next.Tags == nil {
+			cursor.Next.Tags = map[string]string{}
+		}
+
 		return cursor.Next, nil
 	}
 
@@ -154,6 +168,15 @@ func (a *API) SearchSchedules(id string, tags map[string]string, limit int, curs
 
 		if cursor.Next == nil {
 			return nil, RequestValidationError(errors.New("The field cursor is invalid."))
+		}
+
+		// the cursor carries the whole next request, it must satisfy what is
+		// required from a first request
+		if cursor.Next.Id == "" || cursor.Next.Limit < 1 || cursor.Next.Limit > 100 {
+			return nil, RequestValidationError(errors.New("The field cursor is invalid."))
+		}
+		if cursor.Next.Tags == nil {
+			cursor.Next.Tags = map[string]string{}
 		}
 
 		return cursor.Next, nil
